@@ -388,6 +388,11 @@ def run(ctx):
     ctx.rule("R2", "spin flattening: (B,2,N,N) -> (2B,N,N) pairs with repeat_interleave(2) of per-molecule vectors")
     ctx.rule("R3", "fractional occupations are masked on padding orbitals before any reduction or density build")
     ctx.rule("R4", "Parser index arithmetic: counts, atom lists, block indices and aligned pair records equal their definitions on interpreted concrete padded batches")
+    ctx.rule("R5", "per-molecule rows stay with their molecule downstream: output writers index whole-batch arrays by the molecule id (shared with C08-R6); only excited rows receive an excitation energy (shared with C14-R5)")
+    from .c08 import check_writer_row_index
+    from .c14 import _r5_excited_rows
+    check_writer_row_index(ctx, repo.mod("seqm/MolecularDynamics.py"), "R5")
+    _r5_excited_rows(ctx, repo, "R5")
 
     # ------------------------------------------------------------------ R1
     check_rep_rows(ctx, "R1")
